@@ -17,7 +17,7 @@ TREE = {'top': ['clk', 'a', 'b'], 'top.u': ['a', 'q', 'r_valid', 'r_ready', 'w_v
 def gen_case(rng, cid):
     rooted = rng.random() < 0.5
     # half of the traces also have signals outside every scope, named like signals inside the scopes
-    text, info = gen.simple_trace(rng, n=rng.randrange(2, 8), scopes=dict(TREE, **{'': ['a', 'valid']}) if rooted else TREE)
+    text, info = gen.simple_trace(rng, n=rng.randrange(2, 8), scopes=dict(TREE, **{'': ['a', 'valid', 'p_a', 'p_b']}) if rooted else TREE)
     if rng.random() < 0.3 and info['n'] >= 3:
         # two samples with the same timestamp: still two indices, each with its own values
         k = rng.randrange(1, info['n'] - 1)
@@ -66,6 +66,12 @@ def gen_case(rng, cid):
         cmds.append(['evalstr', '111', '(defsig rt (+ ~a 1))'])
         cmds.append(['evalstr', '111', '(defsig rg (+ #valid 2))'])
         defs.append(('rt', '(+ a 1)'))
+        # a group outside every scope used while a scope is active: the signal is named relative to the group (p_gv),
+        # not to the scope, and #gv finds it from the same group under any scope
+        cmds.append(['evalstr', '111', '(in-scope "top" (in-group "p_" (defsig gv (+ #a (* 2 #b)))))'])
+        defs.append(('p_gv', '(+ p_a (* 2 p_b))'))
+        defs.append(('(in-group "p_" #gv)', '(+ p_a (* 2 p_b))'))
+        defs.append(('(in-scope "top.u" (in-group "p_" #gv))', '(+ p_a (* 2 p_b))'))
         defs.append(('(in-scope "top" rt)', '(+ a 1)'))
         defs.append(('(in-scope "top.u" rt)', '(+ a 1)'))
         defs.append(('(in-group "top.u.r_" rg)', '(+ valid 2)'))
